@@ -82,6 +82,13 @@ class Pool:
     # -- steps
     def s_new(self, spec, layout):
         x = G.mk_data(spec)
+        nf = spec.get("nonfinite")
+        if nf and x.size:
+            # a few NaN / Inf samples: "every input signal" includes bad samples
+            flat = x.reshape(-1)
+            for j, v in zip(nf["at"], [np.nan, np.inf, -np.inf]):
+                flat[j % flat.size] = v
+            self.st.label("nonfinite_data")
         if layout == "strided_time":
             big = np.zeros((2 * x.shape[0],) + x.shape[1:], dtype=x.dtype)
             big[::2] = x
@@ -250,6 +257,8 @@ def single_case(draw):
             spec["sshape"] = spec["sshape"] + [2]
     info = {"cls": spec["cls"], "n": spec["n"], "sshape": spec["sshape"], "dtype": str(np.dtype(G.DT[spec["dtype"]])), "start": spec["t0"] is not None,
             "radio": spec["cls"] != "Signal", "baseband": spec["cls"] in G.BASEBAND, "positive_band": True}
+    if draw(st.integers(0, 3)) == 0:
+        spec["nonfinite"] = {"at": [draw(st.integers(0, 10**6)) for _ in range(draw(st.integers(1, 3)))]}
     return {"sig": spec, "layout": draw(st.sampled_from(["contiguous", "strided_time", "strided_last"])), "op": name, "args": op.args(draw, info),
             "twice": draw(st.booleans())}
 
